@@ -17,6 +17,7 @@ Require Import ITree.Spec.Spec ITree.Spec.MapSpec.
 Require Import ITree.Proofs.RBInv ITree.Proofs.PoolProofs ITree.Proofs.MapProofs ITree.Proofs.MapTheorems
   ITree.Proofs.KeyListProofs ITree.Proofs.KeyProofs ITree.Proofs.KeyRefine ITree.Proofs.KeyTheorems.
 Require ITree.Proofs.ListProofs ITree.Model.SegModel ITree.Proofs.SegProofs ITree.Proofs.LayoutProofs.
+Require ITree.Model.ArenaModel ITree.Proofs.ArenaProofs ITree.Model.ArenaDelete ITree.Proofs.ArenaDeleteProofs.
 
 (* removal from a valid red-black tree never needs a sibling or nephew that is missing (the Rust code
    would dereference node(EMPTY_REF) there) *)
@@ -74,4 +75,28 @@ Theorem C10_layout_machine_ranges : forall lo hi : Z,
 Proof.
   intros lo hi H1 H2 H3 H4. destruct (ITree.Proofs.LayoutProofs.machine_ranges lo hi H1 H2 H3 H4) as (A & B & _ & C).
   split; [exact A|]. split; [exact B|]. intros L HL. destruct (C L HL) as (_ & _ & D & E & _). split; assumption.
+Qed.
+
+(* the parent-pointer loops themselves (Model/ArenaModel.v, Model/ArenaDelete.v transcribe the Rust
+   statements): on an arena that represents a tree with consistent links, insertion needs at most
+   2*height+2 iterations of its descent and repair loops, removal of a stored slot of a valid
+   red-black tree at most height-many of each loop (find_left_minimum, the repair recursion), and
+   neither ever reads node(EMPTY_REF) ([ErrStuck]) or runs out of its bound ([ErrFuel]) *)
+Theorem C10_arena_insert_total : forall (s: ArenaModel.astate) (t: tree ment) (ni: N) (e: ment) (fuel: nat),
+  ArenaProofs.Rep s ArenaModel.EMPTY (ArenaModel.aroot s) t -> List.NoDup (slots ment t) ->
+  ~ List.In ni (slots ment t) -> ni <> ArenaModel.EMPTY -> (2 * height ment t + 2 <= fuel)%nat ->
+  exists s', ArenaModel.arena_insert fuel s ni e = Ret s'.
+Proof.
+  intros s t ni e fuel H1 H2 H3 H4 H5.
+  destruct (ArenaProofs.arena_insert_refines s t ni e fuel H1 H2 H3 H4 H5) as (s' & Hs' & _). exists s'. exact Hs'.
+Qed.
+
+Theorem C10_arena_delete_total : forall (s: ArenaModel.astate) (t: tree ment) (x: N) (fuel: nat),
+  ArenaProofs.Rep s ArenaModel.EMPTY (ArenaModel.aroot s) t -> List.NoDup (slots ment t) ->
+  ~ List.In 0%N (slots ment t) -> rbi ment t -> List.In x (slots ment t) -> (height ment t <= fuel)%nat ->
+  exists s' f, ArenaDelete.arena_delete fuel s x = Ret (s', f).
+Proof.
+  intros s t x fuel H1 H2 H3 H4 H5 H6.
+  destruct (ArenaDeleteProofs.arena_delete_refines_frame s t x fuel H1 H2 H3 H4 H5 H6) as (t' & d & f & s' & _ & Hs' & _).
+  exists s', f. exact Hs'.
 Qed.
